@@ -773,8 +773,9 @@ func (in *interpreter) findMethod(T types.Type, name string) *ssa.Function {
 
 // fnInfo numbers the SSA values of a function (shared, built once per function).
 type fnInfo struct {
-	idx map[ssa.Value]int
-	n   int
+	idx     map[ssa.Value]int
+	n       int
+	harness bool // defined in a zz_verif_* file (models and harness code are not race-tracked)
 }
 
 var fnInfos sync.Map // *ssa.Function -> *fnInfo
@@ -784,6 +785,15 @@ func (in *interpreter) infoFor(fn *ssa.Function) *fnInfo {
 		return v.(*fnInfo)
 	}
 	info := &fnInfo{idx: make(map[ssa.Value]int)}
+	if pos := fn.Pos(); pos.IsValid() {
+		file := in.prog.Fset.Position(pos).Filename
+		if i := strings.LastIndex(file, "/"); i >= 0 {
+			file = file[i+1:]
+		}
+		info.harness = strings.HasPrefix(file, "zz_verif")
+	} else if p := fn.Parent(); p != nil {
+		info.harness = in.infoFor(p).harness
+	}
 	add := func(v ssa.Value) {
 		if _, ok := info.idx[v]; !ok {
 			info.idx[v] = info.n
